@@ -15,7 +15,7 @@ checks = {
  "C06": ("exploration", "exhaustive enumeration of limit × size-boundary ladder × SIZE-parameter variants × backend on live sessions",
          "Each case is a live session with a follow-up transaction; accept/refuse and the store are compared with the rule, with an indifference band between LF and CRLF size.", "Trusted: boundary ladder stands for all sizes.", "3.C06"),
  "C07": ("exploration", "bounded-exhaustive enumeration of store operation sequences + explicit-state search, real stores vs reference model",
-         "Every operation sequence over a colliding 23-op alphabet up to the stated depth is executed on the real mem and file stores and compared step by step with an ordered-mailbox model; deeper layers by explicit-state search on the abstract state; plus every op pair from an 11-message mailbox.", "Trusted: model.Store as the specification; ids abstracted by arrival ordinal; I/O errors outside the model.", "3.C07"),
+         "Every operation sequence over a colliding 24-op alphabet up to the stated depth is executed on the real mem and file stores and compared step by step with an ordered-mailbox model; deeper layers by explicit-state search on the abstract state; plus every op pair from an 11-message mailbox.", "Trusted: model.Store as the specification; ids abstracted by arrival ordinal; I/O errors outside the model.", "3.C07"),
  "C08": ("exploration", "bounded-exhaustive enumeration of sized delivery/removal histories × limit configurations, real stores vs eviction model",
          "All histories of sized adds/removes/purges up to the bound under every combination of cap and size limit are run on the real stores and compared with the eviction model after every step; a crash of the enforcer goroutine is caught as a process crash of the worker.", "Trusted: model.Store eviction rule; mem eviction is synchronous with AddMessage.", "3.C08"),
  "C09": ("model_checking", "stateless DFS over all schedules of the real goroutines under a controlled scheduler (testing/synctest + AST-instrumented sync/channel/go sites + runtime select/map patches), iterative preemption bounding; linearizability of every schedule's history checked with porcupine; free-running -race pass",
